@@ -16,16 +16,14 @@ TRUSTED = _c05.TRUSTED
 REQUIRED_THEOREMS = ['OpusProps.C02Wf.' + t for t in ('contract_is_repack_model', 'repack_run_is_contract', 'wellformed_multiframe',
                                                       'packet_pad_is_run', 'pad_contract_is_model',
                                                       'frame_packet_is_contract_output', 'wellformed_low_budget',
-                                                      'encode_wellformed')]
+                                                      'encode_wellformed_multiframe', 'encode_wellformed_single', 'encode_wellformed')]
 UNPROVED = [
-    'wellformed_multiframe at the level of opus_encode_native with the ACTUAL sub-packets of the loop :1680-1739 named in the '
-    'statement: NOT proved. What is proved: (a) encode_wellformed — the emitted bytes of every success return equal the C07 model\'s '
-    'init/cat.../out_range_impl output for EVERY decomposition of the frames into sub-packets that are contract outputs, and parse; '
-    '(b) frame_packet_is_contract_output — every opus_encode_frame_native call within its precondition returns such a sub-packet. '
-    'The link "each sub-frame call of the loop is within the frame precondition and all carry one ToC" is established inside '
-    'OpusProofs/EncSkelMulti.lean (multiStep_inv) but not exported as a trace of the loop, so (a) and (b) are not composed into one '
-    'statement about the recorded sub-frame results; the (maxlen, pad) of the final call is existentially quantified in (a) '
-    '(MultiPkt.out gives maxlen = repacketize_len for the multi-frame path)',
+    'encode_wellformed_multiframe names the actual sub-packets and maxlen = repacketize_len, but the pad flag of the final '
+    'out_range_impl call is existentially quantified (the skeleton computes it as !use_vbr && dtx_count != nb_frames; which of the '
+    'two values it is, is not part of the statement)',
+    'low-budget path at the level of opus_encode_native: wellformed_low_budget is stated on the ToC-only packet functions '
+    'lowHdr0 / lowLens / lowRet0 / padSpec that `lowBudget` is built from, for every state in the ranges of stOk, and not re-stated as a '
+    'theorem about encodeNative under lowBudgetGate (encode_wellformed covers that path for the parse / run clauses)',
     'packet_pad_is_run keeps the frame count of the cat as a hypothesis (hn); pad_contract_is_model / wellformed_low_budget are the '
     'hypothesis-free statements for unpadded input packets (the only way the encoder calls opus_packet_pad)']
 
